@@ -171,6 +171,14 @@ def runAsyncF (r : Option Bool) (f : Flags) (nw : Nat) (choices arrival : List N
     some (collateX (TA.new r f) (arrival.map fun i => postedBy r f fin files i))
   else none
 
+/-- the collation loop waiting for `count` results only (`while result_count < count`): whatever arrives later is never merged -/
+def runAsyncN (count : Nat) (r : Option Bool) (f : Flags) (nw : Nat) (choices arrival : List Nat) (files : List (List TRec)) :
+    Option (Except Err TA) :=
+  let fin := finalPF (failsOf r f files) nw files.length choices
+  if fin.ws.all (fun w => w.phase == .done) then
+    some (collateX (TA.new r f) ((arrival.map fun i => postedBy r f fin files i).take count))
+  else none
+
 /-- the same with a burn-in applied by every worker to every file it reads -/
 def runAsyncFB (burnin : Nat) (r : Option Bool) (f : Flags) (nw : Nat) (choices arrival : List Nat) (files : List (List TRec)) :
     Option (Except Err TA) :=
